@@ -354,6 +354,46 @@ func run(c *rig.Ctx) {
 		c.Case(rig.Hash(uint64(i), r.U64()))
 	})
 
+	// (2b) read-back at every hardware phase: registers whose read-back does not depend on
+	// hardware state are written and read back at every cycle offset around a TIMA overflow
+	// and through two LCD lines, with the LCD on or switched off at that offset
+	plain := []uint16{0xff06, 0xff42, 0xff43, 0xff45, 0xff47, 0xff48, 0xff49, 0xff4a, 0xff4b, 0xffff, 0xff80, 0xc000, 0xe001}
+	c.Part("phases", 260*2, func(i int64, r *rig.Rng) {
+		off := int(i / 2)
+		lcdOffFirst := i%2 == 1
+		w := newWorld(c, r)
+		// timer running at the fastest rate, TIMA about to overflow after a few cycles
+		w.m.Mem.Write(0xff04, 0)
+		w.m.Mem.Write(0xff06, 0x23)
+		w.m.Mem.Write(0xff05, 0xfe)
+		w.m.Mem.Write(0xff07, 0x05)
+		w.ref.tac = 0x05
+		w.write(0xff40, 0x91)
+		w.tick(off)
+		if lcdOffFirst {
+			w.write(0xff40, 0x11)
+		}
+		for _, a := range plain {
+			v := r.U8()
+			w.write(a, v)
+			w.check(a, fmt.Sprintf("%d cycles after LCD-on / timer start (LCD switched off first: %v): write %02X to %04X", off, lcdOffFirst, v, a))
+		}
+		if lcdOffFirst {
+			// VRAM and OAM are plain memory once the LCD is off, whenever it was switched off
+			for k := 0; k < 8; k++ {
+				a := 0x8000 + uint16(r.Intn(0x2000))
+				if k%2 == 1 {
+					a = 0xfe00 + uint16(r.Intn(0xa0))
+				}
+				v := r.U8()
+				w.write(a, v)
+				w.check(a, fmt.Sprintf("LCD switched off %d cycles after switch-on: write %02X to %04X", off, v, a))
+			}
+		}
+		c.Exact(1)
+		c.Count("phase_cases", 1)
+	})
+
 	// (3) LY never takes a written value: paired runs that differ only in the value written
 	np := c.N(300, 6000)
 	c.Part("ly", np, func(i int64, r *rig.Rng) {
